@@ -131,10 +131,10 @@ func buildSeeds(dir string) *seedBuilder {
 		{file: "dummy.msi", ext: ".msi", layout: "cfb", quick: true, quickS: true, sign: true},
 		{file: "dummy.pkg", ext: ".pkg", layout: "xar", quick: true, quickS: true, sign: true},
 		{file: "dummy.dmg", ext: ".dmg", layout: "dmg", quick: true, quickS: true, sign: true},
-		{file: "zlib1g_1.2.8.dfsg-5_i386.deb", ext: ".deb", layout: "ar", quick: true, quickS: true, sign: true},
+		{file: "zlib1g_1.2.8.dfsg-5_i386.deb", ext: ".deb", layout: "ar", quick: false, quickS: true, sign: true},
 		{file: "rocky-basesystem-11-13.el9.noarch.rpm", ext: ".rpm", layout: "rpm", quick: true, quickS: false, sign: true},
 		{file: "InRelease", ext: "", layout: "text", quick: true},
-		{file: "Release.gpg", ext: ".gpg", layout: "text", quick: true, content: filepath.Join(P, "Release")},
+		{file: "Release.gpg", ext: ".gpg", layout: "text", quick: false, content: filepath.Join(P, "Release")},
 		{file: "slimfile.app/dummyapp", name: "slimfile.macho", ext: "", layout: "macho", quick: false, sign: true,
 			flags: url.Values{"info-plist": {filepath.Join(P, "slimfile.app/Info.plist")}, "resources": {filepath.Join(P, "slimfile.app/_CodeSignature/CodeResources")}}},
 		{file: "fatfile.app/Contents/MacOS/dummy", name: "fatfile.macho", ext: "", layout: "macho", quick: false},
@@ -185,9 +185,10 @@ func buildSeeds(dir string) *seedBuilder {
 // pgpSeeds: small clearsigned / detached / inline messages made with rsaA's
 // PGP key by the real pgp signer module.
 func (b *seedBuilder) pgpSeeds() {
-	text := []byte("Origin: verif\nLabel: verif\nSuite: stable\nCodename: c11\nDate: Sat, 03 Oct 2026 00:00:00 UTC\nSHA256:\n 0000000000000000000000000000000000000000000000000000000000000000 0 main/binary-amd64/Packages\n")
-	contentPath := filepath.Join(b.dir, "Release.small")
-	must(os.WriteFile(contentPath, text, 0o644))
+	// the detached content lives next to the harness so that reproducers can name it
+	contentPath := "/verif/cmd/c11/Release.small"
+	text, err := os.ReadFile(contentPath)
+	must(err)
 	for _, v := range []struct {
 		name    string
 		flags   url.Values
@@ -243,7 +244,9 @@ func (b *seedBuilder) tarSeeds() {
 		if len(mutate.TarHeaders(tarBytes)) == 0 {
 			continue // this transform does not produce a tar
 		}
-		ts := b.add(&Seed{Name: s.Name + ":tar", Kind: "tar", Module: s.Module, Ext: ".tar", Layout: "tar", Quick: s.Quick, Tiny: false,
+		// quick: one upload tar per module (the signed variant where there is one; vsix only in thorough)
+		quick := s.Quick && s.Module != "vsix" && !strings.HasPrefix(s.Name, "hello.jar") && (strings.HasSuffix(s.Name, ":signed") || s.Module == "xap" || !b.hasQuickSigned(s.Name))
+		ts := b.add(&Seed{Name: s.Name + ":tar", Kind: "tar", Module: s.Module, Ext: ".tar", Layout: "tar", Quick: quick, Tiny: false,
 			Aux: map[string]string{"inner": s.Layout}, Origin: "upload stream produced by " + s.Module + " transform"}, tarBytes)
 		// whole-stream variants of the smaller tars only (they are seeds run as is)
 		if len(tarBytes) <= 64<<10 {
@@ -253,6 +256,15 @@ func (b *seedBuilder) tarSeeds() {
 			}
 		}
 	}
+}
+
+func (b *seedBuilder) hasQuickSigned(name string) bool {
+	for _, s := range b.seeds {
+		if s.Name == name+":signed" && s.Quick {
+			return true
+		}
+	}
+	return false
 }
 
 // pkcs7Seeds: the PKCS#7 blob inside the signed hello.ps1 and the signed
